@@ -882,13 +882,13 @@ public:
 
         if(_clearProps) {
             clear_all_props();
-        } else {
-            // Resize props
-            resize_vprops(0u);
-            resize_eprops(0u);
-            resize_fprops(0u);
-            resize_cprops(0u);
         }
+        // Resize props: clear_all_props() only hides properties, those still
+        // held through a handle stay registered and must follow the entity counts
+        resize_vprops(0u);
+        resize_eprops(0u);
+        resize_fprops(0u);
+        resize_cprops(0u);
     }
 
     //=====================================================================
